@@ -7,7 +7,59 @@
     trailing newlines and exported, and nothing else is changed. *)
 From GC Require Import Common.Base Model.Shell Proofs.Shell.
 
-(** sshsb (SSH sandbox).  For every environment with valid, pairwise distinct keys, every
+(** * Current builders: every value is emitted as a single-quoted assignment word *)
+
+(** sshsb (SSH sandbox).  For EVERY environment with valid, pairwise distinct keys and EVERY value
+    (validity domain of the mini-sh: no NUL byte), every entrypoint and every initial shell state:
+    feeding the generated script to the shell is the same as feeding the entrypoint alone to the
+    shell in state [after_env_exact e s]; the environment section produces no effect at all (in
+    particular no Exec); each key is bound to EXACTLY its value (trailing newlines included) and
+    exported; every other variable is untouched.  No terminator tag, no hypothesis on the values. *)
+Theorem C18_verbatim_ssh : forall (e : env) (entry : bytes) (s : shst),
+  Forall (fun kv => valid_key (fst kv) = true) e ->
+  NoDup (map fst e) ->
+  Forall (fun kv => no_nul (snd kv) = true) e ->
+  sh_run s (ssh_script e entry) = sh_run (after_env_exact e s) (entry ++ [NL]) /\
+  sh_effects (after_env_exact e s) = sh_effects s /\
+  (forall k v, In (k, v) e -> lookup k (sh_store (after_env_exact e s)) = Some v /\ In k (sh_exported (after_env_exact e s))) /\
+  (forall k, ~ In k (map fst e) ->
+             lookup k (sh_store (after_env_exact e s)) = lookup k (sh_store s) /\
+             (In k (sh_exported (after_env_exact e s)) <-> In k (sh_exported s))).
+Proof. exact verbatim_ssh. Qed.
+Print Assumptions C18_verbatim_ssh.
+
+(** dcmd (container sandbox): the same; the script continues with the SSH-certificate block
+    [cert_tail] (the only place where the random tag still occurs; empty without a certificate). *)
+Theorem C18_verbatim_dcmd : forall (e : env) (tag pub sec script : bytes) (s : shst),
+  Forall (fun kv => valid_key (fst kv) = true) e ->
+  NoDup (map fst e) ->
+  Forall (fun kv => no_nul (snd kv) = true) e ->
+  dcmd_script e tag pub sec = Ok script ->
+  (exists tail, cert_tail tag pub sec = Ok tail /\ sh_run s script = sh_run (after_env_exact e s) tail) /\
+  (is_nil pub && is_nil sec = true -> sh_run s script = Done (after_env_exact e s)) /\
+  sh_effects (after_env_exact e s) = sh_effects s /\
+  (forall k v, In (k, v) e -> lookup k (sh_store (after_env_exact e s)) = Some v /\ In k (sh_exported (after_env_exact e s))) /\
+  (forall k, ~ In k (map fst e) ->
+             lookup k (sh_store (after_env_exact e s)) = lookup k (sh_store s) /\
+             (In k (sh_exported (after_env_exact e s)) <-> In k (sh_exported s))).
+Proof. exact verbatim_dcmd. Qed.
+Print Assumptions C18_verbatim_dcmd.
+
+(** The quoting function: sh-unquoting the emitted word gives back the value, for all byte strings. *)
+Theorem C18_quote_roundtrip : forall v, sh_unquote (sq_word v) = Some v.
+Proof. exact quote_roundtrip. Qed.
+Print Assumptions C18_quote_roundtrip.
+
+(** A valid key followed by =' is read as the start of an assignment word in single quotes. *)
+Theorem C18_names_assignment : forall k X s,
+  is_name k = true ->
+  run_lines (split_lines (k ++ EQS :: SQ :: X)) (Top, s) = run_lines (split_lines X) (InSQ k [], s).
+Proof. exact top_sq_open. Qed.
+Print Assumptions C18_names_assignment.
+
+(** * The here-document flavours the builders used before (kept: regression witnesses) *)
+
+(** sshsb with a quoted here-document delimiter.  For every environment with valid, pairwise distinct keys, every
     sequence of tag draws of the form EOF+10 upper-case letters on which the redraw loop of
     newEOFTag exits with [tag], every entrypoint and every initial shell state: the tag is not
     contained in any value; feeding the generated script to the shell is the same as feeding the
@@ -15,34 +67,34 @@ From GC Require Import Common.Base Model.Shell Proofs.Shell.
     effect at all (in particular no Exec); each key is bound to its value minus trailing newlines
     and exported; every other variable is untouched.  No hypothesis on the values other than the
     validity domain of the mini-sh (no NUL byte). *)
-Theorem C18_verbatim_ssh : forall (e : env) (draws : list bytes) (tag entry : bytes) (s : shst),
+Theorem C18_verbatim_heredoc_ssh : forall (e : env) (draws : list bytes) (tag entry : bytes) (s : shst),
   Forall (fun kv => valid_key (fst kv) = true) e ->
   NoDup (map fst e) ->
   Forall (fun kv => no_nul (snd kv) = true) e ->
   Forall (fun t => go_tag t = true) draws ->
   new_eof_tag draws e = Some tag ->
   tag_fresh tag e = true /\
-  sh_run s (ssh_script e tag entry) = sh_run (after_env e s) (entry ++ [NL]) /\
+  sh_run s (ssh_script_heredoc e tag entry) = sh_run (after_env e s) (entry ++ [NL]) /\
   sh_effects (after_env e s) = sh_effects s /\
   (forall k v, In (k, v) e -> lookup k (sh_store (after_env e s)) = Some (strip_nl v) /\ In k (sh_exported (after_env e s))) /\
   (forall k, ~ In k (map fst e) ->
              lookup k (sh_store (after_env e s)) = lookup k (sh_store s) /\
              (In k (sh_exported (after_env e s)) <-> In k (sh_exported s))).
-Proof. exact verbatim_ssh. Qed.
-Print Assumptions C18_verbatim_ssh.
+Proof. exact verbatim_heredoc_ssh. Qed.
+Print Assumptions C18_verbatim_heredoc_ssh.
 
-(** dcmd (container sandbox).  Same conclusion, but the tag of dcmd.InitSequence is NOT compared
+(** dcmd with a quoted here-document delimiter.  Same conclusion, but the tag was NOT compared
     with the values, so the theorem carries the hypothesis "no line of any value equals the tag"
     (residual risk: the tag is EOF + 10 random upper-case letters, 26^-10 per value line for a
     value chosen independently of the tag; see [C18_collision_refuted]).  The script continues with
     the SSH-certificate block [cert_tail] (empty when no certificate is configured). *)
-Theorem C18_verbatim_dcmd : forall (e : env) (tag pub sec script : bytes) (s : shst),
+Theorem C18_verbatim_heredoc_dcmd : forall (e : env) (tag pub sec script : bytes) (s : shst),
   Forall (fun kv => valid_key (fst kv) = true) e ->
   NoDup (map fst e) ->
   Forall (fun kv => no_nul (snd kv) = true) e ->
   go_tag tag = true ->
   Forall (fun kv => no_tag_line tag (snd kv) = true) e ->
-  dcmd_script e tag pub sec = Ok script ->
+  dcmd_script_heredoc e tag pub sec = Ok script ->
   (exists tail, cert_tail tag pub sec = Ok tail /\ sh_run s script = sh_run (after_env e s) tail) /\
   (is_nil pub && is_nil sec = true -> sh_run s script = Done (after_env e s)) /\
   sh_effects (after_env e s) = sh_effects s /\
@@ -50,20 +102,20 @@ Theorem C18_verbatim_dcmd : forall (e : env) (tag pub sec script : bytes) (s : s
   (forall k, ~ In k (map fst e) ->
              lookup k (sh_store (after_env e s)) = lookup k (sh_store s) /\
              (In k (sh_exported (after_env e s)) <-> In k (sh_exported s))).
-Proof. exact verbatim_dcmd. Qed.
-Print Assumptions C18_verbatim_dcmd.
+Proof. exact verbatim_heredoc_dcmd. Qed.
+Print Assumptions C18_verbatim_heredoc_dcmd.
 
 (** The guard of newEOFTag: when the redraw loop exits with [tag], the tag is one of the draws and
     no value contains it; and "no value contains the tag" implies "no line of a value equals it". *)
-Theorem C18_tag_loop : forall draws e tag,
+Theorem C18_heredoc_tag_loop : forall draws e tag,
   new_eof_tag draws e = Some tag -> In tag draws /\ tag_fresh tag e = true.
 Proof. exact new_eof_tag_fresh. Qed.
-Print Assumptions C18_tag_loop.
+Print Assumptions C18_heredoc_tag_loop.
 
-Theorem C18_tag_fresh_lines : forall tag e,
+Theorem C18_heredoc_tag_fresh_lines : forall tag e,
   tag_fresh tag e = true -> Forall (fun kv => no_tag_line tag (snd kv) = true) e.
 Proof. exact tag_fresh_no_tag_line. Qed.
-Print Assumptions C18_tag_fresh_lines.
+Print Assumptions C18_heredoc_tag_fresh_lines.
 
 (** Names.  A key accepted by the pattern is a non-empty string of ASCII letters and underscores
     starting with a letter, and a shell Name ... *)
@@ -82,11 +134,11 @@ Print Assumptions C18_names_regex.
 
 (** ... so the first line of its block is read by the shell as an assignment word opening a
     here-document with a quoted delimiter ... *)
-Theorem C18_names_assignment : forall k tag s,
+Theorem C18_heredoc_assignment_word : forall k tag s,
   valid_key k = true -> tag_ok tag = true ->
   step_top s (k ++ EQS :: CAT_OPEN ++ delim_word true tag) = (InHere k tag true [], s).
 Proof. exact assignment_word. Qed.
-Print Assumptions C18_names_assignment.
+Print Assumptions C18_heredoc_assignment_word.
 
 (** ... and Set / SetAll reject every other key; SetAll is all-or-nothing. *)
 Theorem C18_names_set : forall m k v,
@@ -114,23 +166,23 @@ Print Assumptions C18_setall_keeps.
 (** The tag.  With a quoted delimiter the body of the here-document ends at the FIRST line equal
     to the tag and nowhere else: if no line of the value equals the tag, the body is the value
     (plus the newline the builder adds) ... *)
-Theorem C18_tag : forall k tag v rest s,
+Theorem C18_heredoc_tag : forall k tag v rest s,
   tag_ok tag = true -> no_tag_line tag v = true ->
   run_lines (split_lines (v ++ NL :: tag ++ NL :: rest)) (InHere k tag true [], s)
   = run_lines (split_lines rest) (AfterHere k (v ++ [NL]), s).
 Proof. exact tag_roundtrip. Qed.
-Print Assumptions C18_tag.
+Print Assumptions C18_heredoc_tag.
 
 (** ... and if the value is [pre], a line equal to the tag, [post], then the body is [pre] and
     [post] is processed as commands inside the substitution (each line an [Exec] effect). *)
-Theorem C18_tag_breakout : forall k tag pre post rest s,
+Theorem C18_heredoc_tag_breakout : forall k tag pre post rest s,
   tag_ok tag = true -> no_tag_line tag pre = true ->
   run_lines (split_lines ((pre ++ NL :: tag ++ NL :: post) ++ NL :: tag ++ NL :: rest)) (InHere k tag true [], s)
   = run_lines (split_lines (post ++ NL :: tag ++ NL :: rest)) (AfterHere k (pre ++ [NL]), s).
 Proof. exact tag_breakout. Qed.
-Print Assumptions C18_tag_breakout.
+Print Assumptions C18_heredoc_tag_breakout.
 
-(** Residual risk of dcmd.InitSequence, machine-checked: if the random tag happens to equal a line
+(** Why dcmd no longer uses a here-document, machine-checked: if the random tag happens to equal a line
     of a value, the rest of the value is executed and the variable is not set to its value. *)
 Theorem C18_collision_refuted :
   let e := [(KEY_A, TAGA ++ NL :: V_PWN)] in
@@ -139,7 +191,7 @@ Theorem C18_collision_refuted :
   Forall (fun kv => no_nul (snd kv) = true) e /\
   no_tag_line TAGA (TAGA ++ NL :: V_PWN) = false /\
   exists script s,
-    dcmd_script e TAGA [] [] = Ok script /\ sh_run sh0 script = Done s /\
+    dcmd_script_heredoc e TAGA [] [] = Ok script /\ sh_run sh0 script = Done s /\
     In (Exec V_PWN) (sh_effects s) /\
     lookup KEY_A (sh_store s) = Some [] /\ strip_nl (TAGA ++ NL :: V_PWN) <> [].
 Proof. exact collision_witness. Qed.
@@ -161,9 +213,19 @@ Proof. exact unquoted_witness. Qed.
 Print Assumptions C18_unquoted_refuted.
 
 (** Non-vacuity: the hypotheses are met by concrete, non-trivial values. *)
-Example C18_ex_quoted :
+Example C18_ex_single_quote :
+  let e := [(KEY_A, V_DHOME ++ [NL; NL]); (KEY_B, V_SUBST ++ SQ :: TAGA ++ NL :: V_PWN); ([67], V_EACUTE)] in
+  exists s, sh_run sh0 (ssh_script e []) = Done s /\
+            lookup KEY_A (sh_store s) = Some (V_DHOME ++ [NL; NL]) /\
+            lookup KEY_B (sh_store s) = Some (V_SUBST ++ SQ :: TAGA ++ NL :: V_PWN) /\
+            lookup [67] (sh_store s) = Some V_EACUTE /\
+            existsb is_exec (sh_effects s) = false.
+Proof. exact sq_example. Qed.
+Example C18_ex_word : sq_word [97;39;10;36;39;39] = [39; 97; 39;92;39;39; 10; 36; 39;92;39;39; 39;92;39;39; 39].
+Proof. vm_compute. reflexivity. Qed.
+Example C18_ex_heredoc_quoted :
   let e := [(KEY_A, V_DHOME); (KEY_B, V_SUBST)] in
-  exists s, sh_run sh0 (ssh_script e TAGA []) = Done s /\
+  exists s, sh_run sh0 (ssh_script_heredoc e TAGA []) = Done s /\
             lookup KEY_A (sh_store s) = Some V_DHOME /\ lookup KEY_B (sh_store s) = Some V_SUBST /\
             existsb is_exec (sh_effects s) = false.
 Proof. exact quoted_example. Qed.
@@ -177,7 +239,7 @@ Example C18_ex_redraw :
   forallb go_tag [TAGA; t2] = true /\
   new_eof_tag [TAGA; t2] e = Some t2 /\
   forallb (fun kv => no_tag_line t2 (snd kv)) e = true /\
-  (exists s, sh_run sh0 (ssh_script e t2 [115;104]) = Done s /\
+  (exists s, sh_run sh0 (ssh_script_heredoc e t2 [115;104]) = Done s /\
              lookup [75;95;97] (sh_store s) = Some ([120] ++ TAGA ++ [10;36;96;39;34;92]) /\
              sh_effects s = [Cmd [115;104]]).
 Proof. vm_compute. repeat split. eexists. repeat split. Qed.
